@@ -382,6 +382,10 @@ def run(c, chk):
         sub = report.SubCheck(chk, 'R12.9', 'C15', only=('R15.1',))
         c15.run(c, sub)
         sub.done('comments inside a skipped item')
+        # R12.11: every name - the empty one included - goes through the lookup before anything is reported about it
+        from . import c01 as _c01g, c08 as _c08g
+        chk.rule('R12.11', 'the name state of the parser equals the reference automaton under every flag combination (rule R1.1 of C01): no name is refused before the ignore-unknown flag was consulted')
+        _c01g.grammar(c, _c08g.chk_proxy(chk, {'R1.1': 'R12.11'}), model)
         # R12.10: what counts as "undeclared" is decided by the name lookup: a name is declared only if it equals a declared name
         from . import c11
         chk.rule('R12.10', 'a name is declared only if it equals a declared name as a whole (one leaf comparison; a length-limited comparison tests the end of the name: rule R11.1 of C11)')
